@@ -191,7 +191,9 @@ def crop_body(ctx: Ctx, p: dict) -> None:
 @st.composite
 def flip_cases(draw):
     steps = draw(local_pipeline(allow_bilateral=False))
-    mv = 19 if any(n.split(".")[0] == "aggregation" for n, _ in steps) else 20
+    # deep radiometry only where the costs stay exact in float32: squared differences of 12-bit values summed over a window
+    # exceed 2**24, and their float32 sum depends on the summation order, which a vertical flip reverses
+    mv = 19 if (any(n.split(".")[0] == "aggregation" for n, _ in steps) or steps[0][1]["matching_cost_method"] == "ssd") else 20
     pair = draw(gen.image_pair(min_rows=12, max_rows=40, min_cols=20, max_cols=60, max_val=mv, masks=True, tile_max=9,
                                texture=True))
     a = draw(st.integers(-4, 3))
